@@ -78,6 +78,42 @@ fn prefix_pairs(map: &FactMap, prefix: &Keys) -> (r: Vec<(Keys, Option<Bytes>)>)
         forall|k: Keys| has_prefix(k, *prefix) && #[trigger] map@.contains_key(k) ==> exists|i: int| 0 <= i < r@.len() && (#[trigger] r@[i]).0 == k,
 { unimplemented!() }
 
+
+// ------------------------------------------------------------------ in-flight perspectives on top of a chain
+impl Reader {
+    /// Read::fetch of a fact index
+    #[verifier::external_body]
+    pub fn fetch(&self, off: u64) -> (r: Result<FactIndexRepr, StorageError>) ensures r is Ok ==> r->Ok_0 == repr_at(off) { unimplemented!() }
+    #[verifier::external_body]
+    pub fn clone(&self) -> (r: Self) { unimplemented!() }
+}
+pub enum FactPerspectivePrior {
+    None,
+    FactPerspective(Box<LinearFactPerspective>),
+    FactIndex { offset: u64, reader: Reader },
+}
+pub struct LinearFactPerspective { pub map: NamedFactMap, pub prior: FactPerspectivePrior }
+impl LinearFactPerspective {
+    /// every committed index below this perspective is a well-formed chain
+    pub open spec fn wf(&self) -> bool decreases self {
+        match self.prior {
+            FactPerspectivePrior::None => true,
+            FactPerspectivePrior::FactPerspective(p) => p.wf(),
+            FactPerspectivePrior::FactIndex { offset, reader } => chain_ok(repr_at(offset)),
+        }
+    }
+    /// flat-map reference: the overlay entry if there is one, else whatever is below
+    pub open spec fn get(&self, n: Name, k: Keys) -> Option<Option<Bytes>> decreases self {
+        match flat(self.map, n, k) {
+            Some(v) => Some(v),
+            None => match self.prior {
+                FactPerspectivePrior::None => None,
+                FactPerspectivePrior::FactPerspective(p) => p.get(n, k),
+                FactPerspectivePrior::FactIndex { offset, reader } => chain_get(repr_at(offset), n, k),
+            },
+        }
+    }
+}
 '''
 
 I_Q = r'impl<R: Read> Query for LinearFactIndex<R>'
@@ -168,6 +204,46 @@ PREFIX = FnSpec(
             }"""),
     ])
 
+I_FP = r'impl<R: Read> LinearFactPerspective<R>'
+FP_PREFIX = FnSpec(
+    FILE, 'query_prefix_inner', I_FP, attrs='#[verifier::spinoff_prover]',
+    sig_rewrites=[('name: &str, prefix: &[Bytes]', 'name: &Name, prefix: &Keys', 1, 'R6')],
+    contract="""
+        requires self.wf(),
+        ensures r is Ok ==> forall|k: Keys| #![trigger r->Ok_0@.contains_key(k)]
+            (r->Ok_0@.contains_key(k) <==> has_prefix(k, *prefix) && self.get(*name, k) is Some)
+            && (r->Ok_0@.contains_key(k) ==> r->Ok_0@[k] == self.get(*name, k)->Some_0),
+        decreases self,
+""",
+    rewrites=[
+        ('for (k, v) in find_prefixes(map, prefix) {', """let ps = prefix_pairs(map, prefix);
+            for i in 0..ps.len()
+                invariant
+                    self.map@.contains_key(*name), map@ == self.map@[*name]@,
+                    forall|k: Keys| has_prefix(k, *prefix) && #[trigger] map@.contains_key(k) ==> exists|j: int| 0 <= j < ps@.len() && (#[trigger] ps@[j]).0 == k,
+                    forall|j: int| 0 <= j < ps@.len() ==> has_prefix((#[trigger] ps@[j]).0, *prefix) && map@.contains_key(ps@[j].0) && map@[ps@[j].0] == ps@[j].1,
+                    forall|k: Keys| #![trigger matches@.contains_key(k)] matches@.contains_key(k) <==>
+                        (m0.contains_key(k) || exists|j: int| 0 <= j < i && (#[trigger] ps@[j]).0 == k),
+                    // later entries overwrite: an overlay key visited so far carries the overlay value
+                    forall|k: Keys| #![trigger matches@.contains_key(k)] matches@.contains_key(k) ==>
+                        matches@[k] == (if exists|j: int| 0 <= j < i && (#[trigger] ps@[j]).0 == k { map@[k] } else { m0[k] }),
+            {
+                let k = &ps[i].0;
+                let v = ps[i].1;""", 1, 'R14'),
+        ('v.map(Into::into)', 'v', 1, 'R16'),
+    ],
+    inserts=[
+        ('before', 'if let Some(map) = self.map.get(name) {', """let ghost m0 = matches@;
+        proof {
+            // what came up from below is the reference lookup below the overlay
+            assert forall|k: Keys| #![trigger m0.contains_key(k)] (m0.contains_key(k) <==> has_prefix(k, *prefix) && (match self.prior {
+                    FactPerspectivePrior::None => None::<Option<Bytes>>,
+                    FactPerspectivePrior::FactPerspective(p) => p.get(*name, k),
+                    FactPerspectivePrior::FactIndex { offset, reader } => chain_get(repr_at(offset), *name, k),
+                }) is Some) by {}
+        }"""),
+    ])
+
 
 def build():
-    return build_unit(PRELUDE, [('impl LinearFactIndex', [QUERY, PREFIX])])
+    return build_unit(PRELUDE, [('impl LinearFactIndex', [QUERY, PREFIX]), ('impl LinearFactPerspective', [FP_PREFIX])])
